@@ -108,8 +108,94 @@ def _deepcopy_temporal(ctx) -> None:
             ctx.ob("DEEPCOPY.class", "DateTime.__deepcopy__", False, "no field-by-field reconstruction found", m.rel)
 
 
+def duration_stub(m: core.Mod, years: int, months: int, total_us: int, record):
+    """instance stub of Duration for the checker's interpreter: the fields Duration.__new__ leaves for (years, months, a signed
+    number of microseconds) - the normalisation itself is C09's subject (UNITS.new / DIVMOD.tabulated) - plus what the C
+    base class answers; `self.__class__(...)` calls `record`."""
+    import datetime as _dt
+    from ..rules import minieval
+    cls = m.cls("Duration")
+    fields = {}
+    for st in cls.body:
+        if isinstance(st, (ast.Assign, ast.AnnAssign)) and st.value is not None and isinstance(st.value, ast.Constant):
+            t = st.targets[0] if isinstance(st, ast.Assign) else st.target
+            if isinstance(t, ast.Name):
+                fields[t.id] = st.value.value
+    sg = -1 if total_us < 0 else 1
+    a = abs(total_us)
+    days = a // 10**6 // 86400 * sg
+    fields.update(_years=years, _months=months, _total=total_us / 10**6, _microseconds=a % 10**6 * sg, _seconds=a // 10**6 % 86400 * sg,
+                  _days=days, _remaining_days=abs(days) % 7 * sg, _weeks=abs(days) // 7 * sg)
+    native = _dt.timedelta(days=years * 365 + months * 30, microseconds=total_us)
+    meths = m.methods("Duration")
+    props = {k for k, f in meths.items() if any(core.dotted(d) == "property" for d in f.decorator_list)}
+    return minieval.Obj(_methods=meths, _props=props, _ctor=record,
+                        _natives={"days": native.days, "seconds": native.seconds, "total_seconds": native.total_seconds}, **fields)
+
+
+def _duration_tabulate(ctx, m: core.Mod) -> bool:
+    """STATE-COMPLETE.tabulated: __reduce__ and __deepcopy__ of Duration are evaluated with the checker's interpreter on instance stubs
+    covering both signs and every unit boundary; the constructor arguments they produce must describe the same duration:
+    the same years, the same months and, weighted by their units, the same number of microseconds.  Returns False when a
+    construct is outside the interpreter (the syntactic rule then decides)."""
+    from ..rules import minieval
+    US = {"days": 86400 * 10**6, "seconds": 10**6, "microseconds": 1, "milliseconds": 1000, "minutes": 60 * 10**6, "hours": 3600 * 10**6,
+          "weeks": 7 * 86400 * 10**6}
+    totals = [0, 1, 999_999, 10**6, 59_999_999, 60 * 10**6, 3599 * 10**6 + 7, 3600 * 10**6, 86399 * 10**6 + 999_999, 86400 * 10**6,
+              6 * 86400 * 10**6 + 3723 * 10**6 + 4, 7 * 86400 * 10**6, 10 * 86400 * 10**6 + 11045 * 10**6 + 6, 400 * 86400 * 10**6 + 86399 * 10**6]
+    totals += [-t for t in totals if t]
+    meths = m.methods("Duration")
+    glob = {"$globals": {"timedelta": minieval.Stub(
+        days=minieval.Stub(__get__=lambda o, *a: vars(o)["_natives"]["days"]),
+        seconds=minieval.Stub(__get__=lambda o, *a: vars(o)["_natives"]["seconds"]),
+        microseconds=minieval.Stub(__get__=lambda o, *a: vars(o)["_natives"]["total_seconds"].__self__.microseconds))}}
+    glob.update({st.name: st for st in m.top() if isinstance(st, ast.FunctionDef)})
+    paths = [(k, meths[k]) for k in ("__reduce__", "__reduce_ex__", "__deepcopy__") if k in meths]
+    if not any(k in meths for k in ("__reduce__", "__reduce_ex__")):
+        return False
+    bad: dict[str, str] = {}
+    n = 0
+    try:
+        for name, fn in paths:
+            for years, months in ((0, 0), (2, 5), (-3, 0), (0, -7), (1, -2)):
+                for t in totals:
+                    def record(*a, **k):
+                        return minieval.Stub(_rebuilt=(a, k))
+                    o = duration_stub(m, years, months, t, record)
+                    extra = [4] if name == "__reduce_ex__" else [{}] if name == "__deepcopy__" else []
+                    got = minieval.call(fn, [o] + extra, {}, glob)
+                    if name == "__deepcopy__":
+                        if not (isinstance(got, minieval.Stub) and hasattr(got, "_rebuilt")):
+                            raise core.Unsupported("__deepcopy__ does not return self.__class__(...)")
+                        a, k = got._rebuilt
+                    else:
+                        if not (isinstance(got, tuple) and len(got) >= 2 and got[0] is record):
+                            bad.setdefault(name, f"{name} of a duration does not return (self.__class__, args)")
+                            continue
+                        a, k = tuple(got[1]), {}
+                    if len(a) > len(DUR_CTOR) or set(k) - set(DUR_CTOR):
+                        bad.setdefault(name, f"{name} passes arguments the constructor does not take")
+                        continue
+                    b = dict(zip(DUR_CTOR, a))
+                    b.update(k)
+                    us = sum(v * US[p] for p, v in b.items() if p in US)
+                    n += 1
+                    if (b.get("years", 0), b.get("months", 0), us) != (years, months, t):
+                        bad.setdefault(name, f"for years={years} months={months} and {t} microseconds {name} rebuilds with "
+                                             f"{ {p: v for p, v in b.items() if v} }: years={b.get('years', 0)} months={b.get('months', 0)} and {us} microseconds")
+    except (core.Unsupported, KeyError, TypeError, AttributeError, ValueError, ZeroDivisionError, RecursionError):
+        return False
+    for name, fn in paths:
+        ctx.ob("STATE-COMPLETE.tabulated", f"Duration.{name}", name not in bad,
+               bad.get(name, f"the constructor arguments describe the same (years, months, microseconds) on every stub ({n} evaluations in all)"),
+               m.loc(fn))
+    return True
+
+
 def _duration(ctx) -> None:
     m = pmod("duration")
+    if _duration_tabulate(ctx, m):
+        return
     # deepcopy
     fn = m.func("Duration.__deepcopy__")
     r = core.returns(fn)
@@ -257,7 +343,8 @@ def run(ctx) -> None:
         hand = {"__reduce__", "__reduce_ex__", "__deepcopy__", "__copy__", "__getstate__"} & set(m.methods(cls))
         ctx.ob("STATE.inherited", f"{cls}", not hand, f"{cls} defines {sorted(hand)}; it is expected to rely on the complete reduce of its C base",
                m.rel, nontrivial=False)
-    ctx.expect_min("STATE-COMPLETE", 35)
+    ctx.expect_min("STATE-COMPLETE", 22)
+    ctx.expect_min("STATE-COMPLETE.tabulated", 2)
     ctx.expect_min("DEEPCOPY", 9)
     ctx.assumptions += ["date.__reduce__/ZoneInfo.__reduce__/tzinfo.__reduce__ (C) are complete for their own state and class-preserving",
                         "copy.copy uses __reduce_ex__(4) when the class defines it"]
